@@ -77,6 +77,17 @@ func (v *VerifAggSenderC02) VerifInitialStatusC02(ctx context.Context) error {
 	return v.Sender.flow.CheckInitialStatus(ctx)
 }
 
+// VerifRecoverOnceC02 is ONE iteration of the retry loop of CheckInitialStatus (the real
+// CheckPendingCertificatesStatus + checkLastCertificateFromAgglayer, through the C13 hook) followed by the flow's
+// CheckInitialStatus: what a freshly started process does before entering the send loop. A non-nil error means the
+// real Start would keep retrying.
+func (v *VerifAggSenderC02) VerifRecoverOnceC02(ctx context.Context) error {
+	if _, err := statuschecker.VerifRecoverOnceC13(ctx, v.Sender.certStatusChecker); err != nil {
+		return err
+	}
+	return v.Sender.flow.CheckInitialStatus(ctx)
+}
+
 // VerifStepC02 runs exactly ONE iteration of the real sendCertificates loop (returnAfterNIterations = 1):
 // for an epoch event when epoch is true (the status ticker is off, one event is waiting on the epoch channel),
 // otherwise for a status-check tick (the ticker fires, no epoch event is waiting).
